@@ -79,6 +79,10 @@ def toExpr : Nat → SX → Option Expr
       | "fn", [.atom v] => some (.lit (.fn v))
       | "type", [.atom v] => some (.lit (.type_ v))
       | "var", [.atom v] => some (.var v)
+      | "varIn", args =>
+        match args.reverse with
+        | .atom nm :: imps => do pure (.varIn (← imps.reverse.mapM sub) nm)
+        | _ => none
       | "ref", [e] => (sub e).map .ref
       | "setDeref", [r, .atom o, e] => do pure (.setDeref (← sub r) (← setop? o) (← sub e))
       | "deref", [e] => (sub e).map .deref
@@ -286,6 +290,11 @@ def handle (d : DSt) (n : Nat) (line : String) : IO DSt := do
         | some "deref" => .deref (.ref direct)
         | some "derefidx" => .deref (.ref direct)
         | some "refget" => .mcall (.ref direct) "get" []
+        | some "using" => .varIn [.lit (.obj "o")] field
+        | some "usingexpr" => .array [.varIn [.lit (.obj "o")] field]
+        | some "usingcall" => .call (.lit (.fn "System#string")) [.varIn [.lit (.obj "o")] field]
+        | some "forin" => .for_ "k" "v" (.lit (.obj "o")) (.dict true [])
+        | some "getfield" => .mcall (.lit (.obj "o")) "get" [.lit (.str field)]
         | _ => direct
       let mo := observe cfg fuel prog env
       let d := { d with fields := d.fields + 1 }
